@@ -176,6 +176,7 @@ type n09Proxy struct {
 	rewritedInTransfer           int
 	maxLive                      *n09Id // highest live record id forwarded to this follower since its last full transfer
 	redelivered                  int    // live records forwarded although an earlier connection had already carried them
+	gen                          int  // incremented by dropConns: connections of an older generation forward nothing more
 	holdSync                     bool // new replication handshakes wait (no transfer may start during a rotation)
 	inTransfer                   int  // replication connections between SYNC request and end of file transfer
 }
@@ -283,6 +284,7 @@ func (p *n09Proxy) serve(c net.Conn) {
 		p.cond.Wait()
 	}
 	p.inTransfer++
+	gen := p.gen
 	p.mu.Unlock()
 	transferDone := false
 	endTransfer := func() { // under p.mu
@@ -320,10 +322,10 @@ func (p *n09Proxy) serve(c net.Conn) {
 		rn, rerr := s.Read(buf)
 		if rn > 0 {
 			p.mu.Lock()
-			for p.stalled && !p.closed {
+			for p.stalled && !p.closed && p.gen == gen {
 				p.cond.Wait()
 			}
-			if p.closed {
+			if p.closed || p.gen != gen { // dropped while it was held back: nothing of it reaches the follower (or the parser)
 				p.mu.Unlock()
 				break
 			}
@@ -406,6 +408,8 @@ func (p *n09Proxy) dropConns() {
 	p.mu.Lock()
 	conns := p.conns
 	p.conns = nil
+	p.gen++
+	p.cond.Broadcast()
 	p.mu.Unlock()
 	for _, c := range conns {
 		_ = c.Close()
@@ -806,6 +810,8 @@ type n09Env struct {
 	info     n09Info
 	noCreateByUpdate bool
 	harnessTainted   string
+	awaitFirstLive   *n09Slot
+	awaitLiveBase, awaitFilesBase int
 	stopNudge chan struct{}
 	nudgeDone chan struct{}
 	mu       sync.Mutex
@@ -1000,6 +1006,25 @@ func (e *n09Env) send(op n09Op) {
 		cmd.Flag |= 0x20
 	}
 	_ = p.ProcessLockCommand(cmd)
+	if e.awaitFirstLive != nil {
+		// known finding (second half): a cursor that was never positioned starts at the ring's oldest record whenever
+		// it first pops; with a ring of two records anything logged meanwhile is skipped. Excluded: after a follower
+		// joined an empty leader the workload waits until the first logged record has reached it.
+		n09Drain(e.leader.inst.slock.aof)
+		if e.leader.inst.slock.replicationManager.bufferQueue.seq > 0 {
+			px := e.awaitFirstLive.proxy
+			for i := 0; i < 1000; i++ {
+				px.mu.Lock()
+				got := px.liveRecords > e.awaitLiveBase || px.filesRecords > e.awaitFilesBase
+				px.mu.Unlock()
+				if got || e.awaitFirstLive.node == nil {
+					break
+				}
+				time.Sleep(2 * time.Millisecond)
+			}
+			e.awaitFirstLive = nil
+		}
+	}
 }
 
 // rotate is Admin.commandHandleRewriteAofCommand; before the switch the harness copies the file
@@ -1132,6 +1157,9 @@ func (e *n09Env) join(op n09Op) error {
 		// without a lock; a record logged at that moment is sent with the files and again live. Excluded: while
 		// the leader has not logged anything yet the workload waits for the handshake to finish.
 		e.info.excludedEmptyRingJoin++
+		s.proxy.mu.Lock()
+		e.awaitFirstLive, e.awaitLiveBase, e.awaitFilesBase = s, s.proxy.liveRecords, s.proxy.filesRecords
+		s.proxy.mu.Unlock()
 		for i := 0; i < 1000; i++ {
 			s.proxy.mu.Lock()
 			done := s.proxy.fullSyncs+s.proxy.resumes > 0
@@ -1616,6 +1644,18 @@ func n09RecId(r *[64]byte) n09Id {
 // repetitions of records already seen in this file and of payload frames already consumed (the
 // signature of two unsynchronised AofFile.Flush calls writing the same buffer twice).
 func (e *n09Env) checkOneFile(f int, dir, name string, exact bool, start *n09Id, target n09Id, tolerant bool) (msg string, dups int) {
+	msg, dups = e.checkOneFileMode(f, dir, name, exact, start, target, tolerant, false)
+	if tolerant && msg != "" {
+		// second reading of the same signature: one frame per record, but a frame may be the payload of another record
+		// of the log (slots of the write buffer flushed twice / out of turn)
+		if m2, d2 := e.checkOneFileMode(f, dir, name, exact, start, target, true, true); m2 == "" && d2 > 0 {
+			return "", d2
+		}
+	}
+	return
+}
+
+func (e *n09Env) checkOneFileMode(f int, dir, name string, exact bool, start *n09Id, target n09Id, tolerant, one2one bool) (msg string, dups int) {
 	recs, frames, rerr := n09ReadRaw(filepath.Join(dir, name))
 	if rerr != nil && recs == nil {
 		return fmt.Sprintf("follower %d %s unreadable: %v", f, name, rerr), 0
@@ -1659,6 +1699,10 @@ func (e *n09Env) checkOneFile(f int, dir, name string, exact bool, start *n09Id,
 				fi++
 				if bytes.Equal(fr, g.Data) {
 					usedFrames[string(fr)] = true
+					break
+				}
+				if one2one && e.truthPayload(fr) {
+					dups++
 					break
 				}
 				if tolerant && (usedFrames[string(fr)] || e.truthPayload(fr)) {
